@@ -125,17 +125,22 @@ func getArgs(v *float64, t string) []any {
 		return []any{*v}
 	}
 
-	// kin-openapi reads every number as a float64. What is beyond the int64 range
-	// is brought back to its closest end: the conversion of such a float is not
-	// defined (`maximum: 9223372036854775807` is read as 2^63).
+	return []any{integerFromFloat(*v)}
+}
+
+// integerFromFloat converts an integer that kin-openapi read, like every
+// number, as a float64. What is beyond the int64 range is brought back to its
+// closest end: the conversion of such a float is not defined
+// (9223372036854775807 is read as 2^63).
+func integerFromFloat(v float64) int64 {
 	switch {
-	case *v >= math.MaxInt64:
-		return []any{int64(math.MaxInt64)}
-	case *v <= math.MinInt64:
-		return []any{int64(math.MinInt64)}
+	case v >= math.MaxInt64:
+		return math.MaxInt64
+	case v <= math.MinInt64:
+		return math.MinInt64
 	}
 
-	return []any{int64(*v)}
+	return int64(v)
 }
 
 func isRef(ref string) bool {
@@ -152,13 +157,13 @@ func typedValue(schema *openapi3.Schema, value any) any {
 	switch v := value.(type) {
 	case float64:
 		if schema.Type.Is(openapi3.TypeInteger) && v == math.Trunc(v) {
-			return int64(v)
+			return integerFromFloat(v)
 		}
 
 		// a node described by oneOf / anyOf: the number is an integer when the
 		// branches accept integers and no other kind of number
 		if v == math.Trunc(v) && branchesAcceptIntegersOnly(schema) {
-			return int64(v)
+			return integerFromFloat(v)
 		}
 	case []any:
 		if schema.Items == nil || schema.Items.Value == nil {
